@@ -29,6 +29,11 @@ type PropConfig struct {
 	// is a limit of the contracts/engine (not a defect); they are reported as not covered,
 	// never counted as discharged, and a *new* failure is still a violation.
 	Unproved []string `json:"unproved"`
+	// OnlyKinds: obligation kinds that belong to this property; other kinds generated for the
+	// same functions (language-level safety) are decided by the property that owns them (C01)
+	OnlyKinds []string `json:"only_kinds"`
+	// Ignore: obligations of these functions that belong to another property's claim
+	Ignore []string `json:"ignore"`
 }
 
 type KnownFinding struct {
@@ -40,6 +45,8 @@ type KnownFinding struct {
 	// the real code still returns something else the finding is still present.
 	WitnessExpr string `json:"witness_expr,omitempty"`
 	WitnessWant string `json:"witness_want,omitempty"`
+	// WitnessOnPatient: evaluate on one empty Patient resource instead of an empty input
+	WitnessOnPatient bool `json:"witness_on_patient,omitempty"`
 	Status     string `json:"status"` // open | fixed
 	Commit     string `json:"commit,omitempty"`
 	Note       string `json:"note,omitempty"`
@@ -134,6 +141,12 @@ func checkProperty(e *engine.Engine, verif, id, tier string, seed int, loadS flo
 		return 2
 	}
 	known := loadKnown(verif)
+	e.SkipRace = map[string]bool{}
+	for _, k := range known.Findings {
+		if k.Status == "open" {
+			e.SkipRace[k.Obligation] = true
+		}
+	}
 	scratch, _ := os.MkdirTemp("", "govc-"+id+"-")
 	if !keep {
 		defer os.RemoveAll(scratch)
@@ -174,6 +187,27 @@ func checkProperty(e *engine.Engine, verif, id, tier string, seed int, loadS flo
 			continue
 		}
 		j.rep = e.VerifyFunction(fn)
+	}
+	if len(cfg.OnlyKinds) > 0 || len(cfg.Ignore) > 0 {
+		keep := map[string]bool{}
+		for _, k := range cfg.OnlyKinds {
+			keep[k] = true
+		}
+		ign := map[string]bool{}
+		for _, k := range cfg.Ignore {
+			ign[k] = true
+		}
+		for _, j := range jobs {
+			if j.rep == nil {
+				continue
+			}
+			for _, ob := range j.rep.Obligations {
+				if (len(cfg.OnlyKinds) > 0 && !keep[ob.Kind] && !strings.HasPrefix(ob.Kind, "ensures")) || ign[ob.Name] {
+					ob.Static = true
+					ob.Status = "skipped"
+				}
+			}
+		}
 	}
 	// lemmas used by contracts must themselves be proved in this run
 	have := map[string]bool{}
@@ -226,6 +260,7 @@ func checkProperty(e *engine.Engine, verif, id, tier string, seed int, loadS flo
 	var solverSum, solverMax float64
 	var slow []obOut
 	nOb, nDis, nVac, nUnproved := 0, 0, 0, 0
+	nSkipped := 0
 	unproved := map[string]bool{}
 	for _, u := range cfg.Unproved {
 		unproved[u] = true
@@ -264,6 +299,10 @@ func checkProperty(e *engine.Engine, verif, id, tier string, seed int, loadS flo
 			solverMax = rep.SolverTimeS
 		}
 		for _, ob := range rep.Obligations {
+			if ob.Status == "skipped" {
+				nSkipped++
+				continue
+			}
 			o := obOut{Name: ob.Name, Kind: ob.Kind, Text: ob.Text, Pos: ob.Pos, Status: ob.Status, Backend: ob.Backend, TimeS: ob.TimeS}
 			if ob.Kind == "vacuity" {
 				nVac++
@@ -364,6 +403,7 @@ func checkProperty(e *engine.Engine, verif, id, tier string, seed int, loadS flo
 		"not_covered_obligations":  unprovedSeen,
 		"bounded":                  cfg.Bounded,
 		"load_s":                   round2(loadS),
+		"obligations_of_other_properties_skipped": nSkipped,
 		"all_obligations":          all,
 	}
 	ev := map[string]any{
@@ -465,7 +505,8 @@ func witnessStillFails(e *engine.Engine, kf KnownFinding) bool {
 	if kf.WitnessExpr == "" {
 		return true
 	}
-	if v, ok := witnessCache[kf.WitnessExpr]; ok {
+	ckey := fmt.Sprintf("%s|%v", kf.WitnessExpr, kf.WitnessOnPatient)
+	if v, ok := witnessCache[ckey]; ok {
 		return v
 	}
 	test := fmt.Sprintf(`package fhirpath_test
@@ -474,9 +515,12 @@ import (
 	"fmt"
 	"testing"
 
+	ppb "github.com/google/fhir/go/proto/google/fhir/proto/r4/core/resources/patient_go_proto"
 	"github.com/verily-src/fhirpath-go/fhirpath"
 	"github.com/verily-src/fhirpath-go/internal/fhir"
 )
+
+var _ = ppb.Patient{}
 
 func TestVerifReplay(t *testing.T) {
 	defer func() {
@@ -489,14 +533,18 @@ func TestVerifReplay(t *testing.T) {
 		fmt.Printf("VERIF-WITNESS compile-error: %%v\n", err)
 		return
 	}
-	got, err := e.Evaluate([]fhir.Resource{})
+	input := []fhir.Resource{}
+	if %v {
+		input = append(input, &ppb.Patient{})
+	}
+	got, err := e.Evaluate(input)
 	if err != nil {
 		fmt.Printf("VERIF-WITNESS error: %%v\n", err)
 		return
 	}
 	fmt.Printf("VERIF-WITNESS %%v\n", got)
 }
-`, kf.WitnessExpr)
+`, kf.WitnessExpr, kf.WitnessOnPatient)
 	out, _ := engine.RunOverlayTest(e.RepoDir, "fhirpath", test)
 	got := ""
 	for _, l := range strings.Split(out, "\n") {
@@ -505,6 +553,6 @@ func TestVerifReplay(t *testing.T) {
 		}
 	}
 	fails := got != kf.WitnessWant
-	witnessCache[kf.WitnessExpr] = fails
+	witnessCache[ckey] = fails
 	return fails
 }
